@@ -17,6 +17,8 @@ def check(A):
         S.ping_task_rules(A, fl, 'C04')
     R.driver_fifo_rule(A, 'C04')
     R.driver_wait_rule(A, 'C04')
+    R.driver_handler_rule(A, 'C04')
+    R.driver_environ_rule(A, 'C04')
     from . import C02
     C02.check(A, only_decode=True, prefix='C04')
     # the payload text a handler sees is the one decode() produces (shared with C01); the
